@@ -8,10 +8,12 @@
      exact DECIMAL sign * m * 10^e.  A decimal stands for the float64 whose shortest
      round-trip representation it is (strconv 'shortest' formatting, which encoding/json uses);
      that Go's ParseFloat/FormatFloat agree with the decimal arithmetic here on such values is
-     the one external assumption (listed in lib/props.py, exercised by every generated case).
+     the one external assumption (listed in lib/props.d/C20.py, exercised by every generated case).
    * Validate: the comparisons of Config.Validate in source order, first failure reported
      (`checks` below is compared with the table gofacts extracts from the Go AST:
-     ConfigProofs.validate_table_matches_source).
+     ConfigProofs.validate_table_matches_source).  This is the code after fix commits 64f1612
+     (ratio must be a finite number > 1), f006bc0 (directory names valid UTF-8) and b55f9f4
+     (upper bounds of max_memtables and compaction_interval).
    * json.MarshalIndent(c, "", "  ") for this struct: byte-exact text (`encode`), including the
      string escaping of encoding/json (quotes, backslash, control characters, <>&, U+2028/9,
      invalid UTF-8 -> U+FFFD) and the float formatting ('f' / 'e' switch at 1e-6 and 1e21).
@@ -21,8 +23,9 @@
      (including the two non-ASCII folds U+017F and U+212A), unknown keys skipped, duplicate
      keys last-wins, null ignored, any type mismatch / integer overflow / float overflow is an
      error, non-object top level is an error except null.
-   * the database directory: does it exist, the MANIFEST bytes, a left-over MANIFEST.tmp
-     (`dirst`); `save`, `load`, `open_db`.
+   * the database directory: does it exist, the MANIFEST bytes, a left-over MANIFEST.tmp,
+     everything else in it (`dirst`); `save`, `load`, `open_db` (after fix commit 18e2d38: a
+     missing manifest means "new database" only in an otherwise empty directory).
    Not modelled: nesting depth limit 10000 of encoding/json, I/O errors other than "not found",
    file permissions, the second manifest API of pkg/config/manifest.go (covered by the harness
    oracle only; it is not used by the engine).
@@ -840,7 +843,7 @@ Definition fval_eqb (a b : fval) : bool :=
 
 (* the float survives the JSON text: FormatFloat output is scanned as one number and
    ParseFloat gives the value back (decidable; holds for the decimals that are shortest
-   representations of finite float64 values, see the assumption in lib/props.py) *)
+   representations of finite float64 values, see the assumption in lib/props.d/C20.py) *)
 Definition float_okb (f : fval) : bool :=
   match fmt_float f with
   | Some txt =>
